@@ -468,6 +468,10 @@ def nominalOf (G : GEnv) (n : String) : Option Ty :=
 def reorder (n : Nat) (idxs : List Nat) (ts : List TExpr) : List TExpr :=
   (List.range n).map fun k => ((idxs.zip ts).find? (fun p => p.1 == k)).elim (TExpr.prim .unit) (·.2)
 
+/-- the written positions are distinct, in range, and there is one per checked field -/
+def zipOk (nf : Nat) (idxs : List Nat) (ts : List TExpr) : Bool :=
+  decide (((idxs.zip ts).map (·.1)).Nodup) && decide (ts.length ≤ idxs.length) && idxs.all (· < nf)
+
 mutual
 def go : IExpr → Option Ty → GEnv → Scopes → St → Res
   | .lit i ty, exp, _, Γ, s => finish i exp true (.prim ty) Γ s
@@ -694,18 +698,19 @@ def go : IExpr → Option Ty → GEnv → Scopes → St → Res
   | .slit i info idxs args, exp, G, Γ, s =>
     -- `infer_struct_literal_expr` (no unknown / duplicate / missing field)
     match info with
-    | none => let e := errExpr (s.mark.diag .ctorNotFound); finish i exp true e.1 Γ e.2
+    | none => let e := errExpr (s.diag .ctorNotFound); finish i exp true e.1 Γ e.2
     | some (cty, nf) =>
-      let it := s.mark.inst cty
+      let it := s.inst cty
       match goIdx args idxs (ctorParams it.1) G Γ it.2 with
       | none => none
       | some (ts, Γ1, s1) =>
         let ordered := reorder nf idxs ts
         let c := if ordered.isEmpty then Constraint.eq it.1 (ctorRet it.1) else Constraint.eq it.1 (.func (tysOf ordered) (ctorRet it.1))
-        finish i exp true (.constr it.1 ordered (ctorRet it.1)) Γ1 (s1.push c)
+        -- ghost: the written fields are exactly the declared ones (what the harness guarantees); otherwise outside `infer_sound`
+        finish i exp true (.constr it.1 ordered (ctorRet it.1)) Γ1 ((if zipOk nf idxs ts then s1 else s1.mark).push c)
   | .array i items, exp, G, Γ, s =>
     -- `infer_array_expr`: the element variable first, every item inferred and equated with it
-    let v := s.mark.fresh
+    let v := s.fresh
     match goArr items v.1 G Γ v.2 with
     | none => none
     | some (ts, Γ1, s1) => finish i exp true (.array ts (.array items.length v.1)) Γ1 s1
